@@ -297,11 +297,12 @@ type e2eResult struct {
 }
 
 type e2eRunResult struct {
-	Name         string
-	Inconclusive string
-	Violations   []violation
-	Counts       map[string]int64
-	Events       []string
+	PortCollision bool
+	Name          string
+	Inconclusive  string
+	Violations    []violation
+	Counts        map[string]int64
+	Events        []string
 }
 
 func (r *e2eRun) keepLogs() string {
@@ -488,6 +489,11 @@ func runE2E(c *vc.Ctx) *e2eResult {
 		go func(i int, eng string) {
 			defer wg.Done()
 			rr := runE2EOne(c, i, eng)
+			for attempt := 2; attempt <= 3 && rr.PortCollision; attempt++ {
+				// a process lost the race for a probed port: same plan again with fresh ports
+				os.RemoveAll(filepath.Join(c.Scratch, "e2e-"+eng))
+				rr = runE2EOne(c, i, eng)
+			}
 			mu.Lock()
 			res.Runs = append(res.Runs, rr)
 			mu.Unlock()
@@ -504,6 +510,11 @@ func runE2EOne(c *vc.Ctx, idx int, engine string) *e2eRunResult {
 	out := &e2eRunResult{Name: r.name, Counts: r.counts}
 	os.MkdirAll(r.dir, 0755)
 	fail := func(why string) *e2eRunResult {
+		for _, role := range []string{"dest", "learner", "voter"} {
+			if logHas(filepath.Join(r.dir, role+".stdout.log"), "address already in use") {
+				out.PortCollision = true
+			}
+		}
 		out.Inconclusive = why + "; logs kept in " + r.keepLogs()
 		out.Events = r.events
 		for role := range r.procs {
@@ -729,8 +740,20 @@ func runE2EOne(c *vc.Ctx, idx int, engine string) *e2eRunResult {
 				sig = "entry-applied-twice/after-restore-from-pebble-checkpoint"
 			}
 			r.keepLogs()
+			holes := 0
+			if sig == "entry-skipped" {
+				// the destination warns for every index gap INSIDE a received batch
+				// ("raft log commit not continued"): many of them mean that the real sender
+				// itself sent a batch with holes
+				if b, err := ioutil.ReadFile(filepath.Join(r.dir, "dest", "repo.log")); err == nil {
+					holes = strings.Count(string(b), "raft log commit not continued")
+				}
+				if holes >= 20 {
+					sig = "entry-skipped/sender-batch-with-holes"
+				}
+			}
 			out.Violations = append(out.Violations, violation{Sig: "e2e/" + sig, Summary: fmt.Sprintf("[%s] keys %s*: %s", r.name, p, why),
-				Witness: map[string]interface{}{"engine": engine, "seed": c.Seed, "events": r.events, "source": s, "destination": d,
+				Witness: map[string]interface{}{"engine": engine, "seed": c.Seed, "events": r.events, "source": s, "destination": d, "index_gaps_inside_received_batches": holes,
 					"replay_note": "the fault plan is a function of the seed; process timing is re-sampled"}})
 			break
 		}
